@@ -87,7 +87,7 @@ def run(ctx):
 
     hb, hlog = ctx.build_harness("c11")
     meta, sj = {}, []
-    model_bad, prop_bad = [], []
+    model_bad, prop_bad, run_bad = [], [], []
     if hb is None:
         ob_failed.append("harness does not build against the source tree: " + hlog[-800:])
     else:
@@ -112,6 +112,15 @@ def run(ctx):
                 for ident, acc in (("M", model_bad), ("P", prop_bad)):
                     for i in (ctx.parse_nlist(r.get(ident)) or []):
                         acc.append(base + i)
+            # forwarder's run(): observed from outside
+            rj = load_jsonl(os.path.join(ctx.work, "rcases.jsonl"))
+            if meta.get("run_shards"):
+                rres = ctx.coq_eval_shards(GROUP, ctx.work, meta["run_shards"])
+                for shard, lg in rres["_errors"]:
+                    ob_failed.append("run shard %s did not evaluate: %s" % (shard, lg[-600:]))
+                for shard in meta["run_shards"]:
+                    for i in (ctx.parse_nlist((rres.get(shard) or {}).get("P")) or []):
+                        run_bad.append(rj[i] if i < len(rj) else {"index": i})
             for e in (meta.get("errors") or []):
                 ob_failed.append("harness scenario could not run: " + e)
             for e in (meta.get("stuck") or []):
@@ -161,6 +170,12 @@ def run(ctx):
                        "rejected_label_index": rej, "events": [label_text(e) for e in sj[i]["events"]]},
                       False, "%d recorded run(s) are not traces of the LTS although the trace predicates hold; smallest: %s"
                       % (len(model_bad), describe(i, rej, [])))
+    for rr in run_bad[:3]:
+        sc = rr.get("scenario", {})
+        ctx.violation("run-sequence-%s" % "-".join(sc.get("name", "?").split("/")[2:]),
+                      {"kind": "run", "scenario": sc, "observed": {k: v for k, v in rr.items() if k != "scenario"}},
+                      True, "forwarder.Run with a cancelled context: %s observed %s"
+                      % (sc.get("name"), json.dumps({k: v for k, v in rr.items() if k != "scenario"})))
     if ob_failed and not ctx.violations and not ctx.known_hits:
         ctx.violation("obligation-unchecked", dict(unchecked=ob_failed), False, ob_failed[0][:300])
     elif ob_failed:
@@ -189,7 +204,8 @@ def run(ctx):
         "theorems": info["theorems"],
         "table_obligations": obs,
         "unchecked_obligations": ob_failed,
-        "evaluations": int(meta.get("cases", 0)),
+        "evaluations": int(meta.get("cases", 0)) + int(meta.get("run_cases", 0)),
+        "run_sequence_cases": int(meta.get("run_cases", 0)),
         "distinct_nontrivial": int(meta.get("distinct_traces", 0)),
         "rule": "scenarios: every single-connection phase (fresh, partial head, upstream round trip held, response write held, "
                 "keep-alive idle, tunnel copying, CONNECT dial held, PROXY header awaited) x what the client does after closing "
@@ -198,7 +214,7 @@ def run(ctx):
                 "in different phases; non-trivial/distinct = distinct recorded label sequences",
         "traces_validated_against_impl": int(meta.get("cases", 0)) - len(model_bad),
         "model_mismatches": len(model_bad),
-        "property_failures_on_impl": len(prop_bad),
+        "property_failures_on_impl": len(prop_bad) + len(run_bad),
         "events_recorded": int(meta.get("events", 0)),
         "distribution": {k: meta.get(k) for k in ("by_mode", "by_phase", "by_after", "conns_per_scenario", "vanished_clients",
                                                    "late_dials", "shutdown_returned_nil", "shutdown_returned_ctx_error",
